@@ -77,3 +77,38 @@ pub fn polkadot_registry() -> PortableRegistry {
         _ => panic!("unsupported metadata version"),
     }
 }
+
+
+// ---------------------------------------------------------------------------
+// in-flight record: a crash of the implementation under test that `catch_unwind` cannot catch
+// (stack overflow, abort) kills this process; the input being observed at that moment is kept in
+// two small files in the output directory so that the driver can report it as the failing input.
+static INFLIGHT_DIR: std::sync::OnceLock<std::path::PathBuf> = std::sync::OnceLock::new();
+
+pub fn inflight_init(dir: &std::path::Path) {
+    let _ = std::fs::create_dir_all(dir);
+    let _ = INFLIGHT_DIR.set(dir.to_path_buf());
+    inflight_done();
+}
+
+/// the slowly changing part (registry, settings): written once per registry
+pub fn inflight_ctx(v: &serde_json::Value) {
+    if let Some(d) = INFLIGHT_DIR.get() {
+        let _ = std::fs::write(d.join("inflight_ctx.json"), v.to_string());
+        let _ = std::fs::remove_file(d.join("inflight.json"));
+    }
+}
+
+/// the part that changes with every call (ids, seeds, ...)
+pub fn inflight(v: &serde_json::Value) {
+    if let Some(d) = INFLIGHT_DIR.get() {
+        let _ = std::fs::write(d.join("inflight.json"), v.to_string());
+    }
+}
+
+pub fn inflight_done() {
+    if let Some(d) = INFLIGHT_DIR.get() {
+        let _ = std::fs::remove_file(d.join("inflight_ctx.json"));
+        let _ = std::fs::remove_file(d.join("inflight.json"));
+    }
+}
